@@ -18,3 +18,33 @@ Definition handler_with (h_zero : hop) (f_growcap : nat -> nat) (s_Logger : lgr)
     end.
 Definition translated_handler_with := true.
 
+(* handler4LogSlog.nest  (returns (the attributes, the heap); None = panic / out of fuel) *)
+Definition handler_nest (h_zero : acell) (f_growcap : nat -> nat) (f_group : bytes -> list acell -> acell) (s_ops : list (bytes * hslice)) (fields : hslice) (heap_ : heap acell) : option (hslice * heap acell) :=
+  let i := ((Z.of_nat (List.length s_ops)) - 1) in
+  match go_loop (S (List.length s_ops)) (fun st_ => let '(fields, i, heap_) := st_ in
+        if (0 <=? i)
+        then match list_at s_ops i with
+        | None => LoopPanic
+        | Some r1_ => let op := r1_ in
+          if (bytes_eqb (fst op) []) then match h_make_cap heap_ 0 ((h_len (snd op)) + (h_len fields)) h_zero with
+          | None => LoopPanic
+          | Some r2_ => let '(r3_, heap_) := r2_ in
+            let '(r4_, heap_) := h_append_all f_growcap heap_ r3_ (h_read heap_ (snd op)) in
+            let '(r5_, heap_) := h_append_all f_growcap heap_ r4_ (h_read heap_ fields) in
+            let fields := r5_ in
+            let i := (i - 1) in
+            LoopNext (fields, i, heap_)
+          end
+          else if (0 <? (h_len fields)) then let '(r6_, heap_) := h_lit heap_ [(f_group (fst op) (h_read heap_ fields))] in
+          let fields := r6_ in
+          let i := (i - 1) in
+          LoopNext (fields, i, heap_)
+          else let i := (i - 1) in
+          LoopNext (fields, i, heap_)
+        end
+        else LoopDone (fields, i, heap_)) (fields, i, heap_) with
+    | None => None
+    | Some (fields, i, heap_) => Some ((fields, heap_))
+    end.
+Definition translated_handler_nest := true.
+
